@@ -194,6 +194,19 @@ def one(ctx, i, rng):
             for x in w.jpim.name_instance.values():
                 w.instances.setdefault(x.name, x)
 
+        async def tolerated(coro, what):
+            # The real callers of these driver entry points (the aiohttp handler answering a worker, the instance monitor
+            # loop) log an exception and carry on; two of them deactivating / removing the same instance concurrently can
+            # trip the driver's own in-memory assertions.  That is not what C39 is about: record it and continue.
+            try:
+                return await coro
+            except aiohttp.web.HTTPException:
+                return None
+            except Exception as e:  # pylint: disable=broad-except
+                ctx.seen('driver_errors_survived_as_the_real_caller_would', f'{what}: {type(e).__name__}')
+                ctx.count('driver_errors_survived')
+                return None
+
         async def activator():
             # job-private VMs boot and activate after a while (or time out during the fault phase)
             while not phase['stop']:
@@ -202,7 +215,7 @@ def one(ctx, i, rng):
                     if inst.state == 'pending':
                         if phase['faults'] and r2.random() < 0.1:
                             dead.add(inst.name)
-                            await inst.deactivate('activation_timeout', w.now_ms())
+                            await tolerated(inst.deactivate('activation_timeout', w.now_ms()), 'activation-timeout')
                         else:
                             try:
                                 await inst.activate('10.1.%d.%d' % (r2.randint(0, 250), r2.randint(1, 250)), w.now_ms())
@@ -225,10 +238,7 @@ def one(ctx, i, rng):
                     t0 = idle_since.setdefault(inst.name, loop.time())
                     if loop.time() - t0 >= 30:
                         dead.add(inst.name)
-                        try:
-                            await w.dm.deactivate_instance(fz._worker_request(inst, {}))
-                        except aiohttp.web.HTTPException:
-                            pass
+                        await tolerated(w.dm.deactivate_instance(fz._worker_request(inst, {})), 'worker-deactivate')
                 await asyncio.sleep(5)
 
         async def provider():
@@ -250,7 +260,7 @@ def one(ctx, i, rng):
                         for rec in recs:
                             if rec['inst'] == inst.name:
                                 rec['stopped'] = True  # the VM is gone: whatever ran there has stopped
-                    await inst.deactivate('preempted', w.now_ms())
+                    await tolerated(inst.deactivate('preempted', w.now_ms()), 'preempt')
                     if r2.random() < 0.5:
                         try:
                             await inst.inst_coll.remove_instance(inst, 'preempted', w.now_ms())
